@@ -100,6 +100,39 @@ def real_encode(Message, fields, peek=None):
     return out
 
 
+def interleaved_encode(Message, fields, other):
+    """Encode ``fields`` while, at every source line executed inside paramiko/message.py and util.py, ANOTHER message
+    (``other``) is encoded and read back in full — what a second thread would do at that point.  Messages share no
+    state, so the result must be the same as without the interleaving."""
+    import sys
+
+    busy = [False]
+
+    def local(frame, event, arg):
+        if event == "line" and not busy[0]:
+            busy[0] = True
+            try:
+                d = real_encode(Message, other)
+                real_decode(Message, "".join(k for k, _ in other), d)
+            finally:
+                busy[0] = False
+        return local
+
+    def tracer(frame, event, arg):
+        fn = frame.f_code.co_filename
+        if fn.endswith(("paramiko/message.py", "paramiko/util.py")) and not busy[0]:
+            return local
+        return None
+
+    sys.settrace(tracer)
+    try:
+        data = real_encode(Message, fields)
+        got, _, _ = real_decode(Message, "".join(k for k, _ in fields), data)
+    finally:
+        sys.settrace(None)
+    return data, got
+
+
 def real_decode(Message, kinds, data, check_split=None):
     m = Message(data)
     out = []
@@ -122,6 +155,8 @@ def run(ctx):
                 "decoded under arbitrary reader sequences. distinct = distinct (kinds, encoding) pairs; "
                 "non-trivial = the sequence contains a variable-length field (a/s/l/m)")
     ctx.trust("UTF-8 encode/decode of text fields is CPython's (model works on the encoded bytes)")
+    ctx.assume("the model encodes one message at a time; that messages share no state is checked by building a second "
+               "message at every source line of the first (sys.settrace), not proved")
     ctx.build()
     rng = ctx.rng
     n_valid = 60000 if ctx.thorough else 9000
@@ -188,6 +223,24 @@ def run(ctx):
                     ctx.fail("inflate-deflate", {"z": v}, "inflate(deflate(z)) != z")
         dec_reqs.append("dec %s %s" % (kinds.replace("x", "s"), hx(data + tail)))
         dec_cases.append((kinds, data + tail))
+
+    # ---- two messages in the making at once (transport thread and user threads build messages concurrently)
+    for j in range(400 if ctx.thorough else 120):
+        fa = [gen_field(rng) for _ in range(rng.randrange(1, 5))]
+        fb = [gen_field(rng) for _ in range(rng.randrange(1, 4))]
+        ctx.dist("interleaved")
+        try:
+            want = real_encode(Message, fa)
+            data, got = interleaved_encode(Message, fa, fb)
+        except Exception as e:
+            ctx.fail("interleaved-raises:" + type(e).__name__, {"fields": [tok(f) for f in fa], "other": [tok(f) for f in fb]},
+                     repr(e))
+            continue
+        ctx.case(("interleaved", want), True)
+        if data != want or got != fa:
+            ctx.fail("messages-share-state", {"fields": [tok(f) for f in fa], "meanwhile": [tok(f) for f in fb]},
+                     "encoding %s while another message was built/read at every step gave %s (alone: %s); read back %r"
+                     % ([tok(f) for f in fa], data.hex()[:80], want.hex()[:80], got))
 
     # ---- fields around and beyond the 1 MiB zero-padding limit of get_bytes (every size is a well-formed field)
     M = 1 << 20
